@@ -137,8 +137,18 @@ func TLSClientAuth(opts TLSClientOptions) (*tls.Config, error) {
 		var keyBytes []byte
 		switch k := opts.LoadedKey.(type) {
 		case *rsa.PrivateKey:
+			// a nil or incomplete key would make the marshaller panic
+			if k == nil {
+				return nil, errors.New("tls client priv key: nil RSA key")
+			}
+			if err := k.Validate(); err != nil {
+				return nil, fmt.Errorf("tls client priv key: %v", err)
+			}
 			keyBytes = x509.MarshalPKCS1PrivateKey(k)
 		case *ecdsa.PrivateKey:
+			if k == nil || k.Curve == nil || k.D == nil || k.X == nil || k.Y == nil {
+				return nil, errors.New("tls client priv key: incomplete EC key")
+			}
 			var err error
 			keyBytes, err = x509.MarshalECPrivateKey(k)
 			if err != nil {
